@@ -2,7 +2,9 @@ package props
 
 import (
 	"fmt"
+	"io"
 	"os"
+	"strings"
 	"testing"
 
 	"pgregory.net/rapid"
@@ -20,9 +22,14 @@ type apiResult struct {
 }
 
 func runAgainstSink(w *Workload, s *faultSink) (res []apiResult) {
+	return runAgainstSinkAs(w, s, s)
+}
+
+// runAgainstSinkAs hands dst (the sink itself or a wrapper exposing more methods) to the writer.
+func runAgainstSinkAs(w *Workload, s *faultSink, dst io.Writer) (res []apiResult) {
 	f := fx.Get(w.Fixture)
 	s.api = "NewParquetWriter"
-	pw, err := f.NewWriter(s, w.PageSize, w.Codec)
+	pw, err := f.NewWriter(dst, w.PageSize, w.Codec)
 	res = append(res, apiResult{"NewParquetWriter", err})
 	if err != nil || pw == nil {
 		return res
@@ -81,7 +88,9 @@ func classifySinkWrites(file []byte, log []sinkWrite) []string {
 	return out
 }
 
-var sinkModes = []string{"once", "sticky", "short"}
+// mode = <persistence>[+temp][+file]: the error kind (plain / net-style Temporary+Timeout) and what the sink
+// looks like to the writer (a bare io.Writer / something with Seek and Truncate like *os.File)
+var sinkModes = []string{"once", "sticky", "short", "sticky+temp", "once+temp", "once+file", "sticky+file"}
 
 type SinkFaultCase struct {
 	W    *Workload `json:"w"`
@@ -91,8 +100,18 @@ type SinkFaultCase struct {
 
 func checkSinkFault(c *SinkFaultCase) *Outcome {
 	return guard("C09", func() *Outcome {
-		s := &faultSink{failAt: c.K, mode: c.Mode}
-		res := runAgainstSink(c.W, s)
+		parts := strings.Split(c.Mode, "+")
+		s := &faultSink{failAt: c.K, mode: parts[0]}
+		var dst io.Writer = s
+		for _, p := range parts[1:] {
+			switch p {
+			case "temp":
+				s.temp = true
+			case "file":
+				dst = &fileSink{faultSink: s}
+			}
+		}
+		res := runAgainstSinkAs(c.W, s, dst)
 		if len(s.faultAPI) == 0 {
 			return nil // the history ended before the k-th sink write (an earlier call reported an error and we stopped) - nothing injected
 		}
